@@ -132,6 +132,9 @@ fn reads<D: Deref<Target = [i32]>>(v: &Inner<i32, D>, g: Geo, model: &[i32], cx:
         cx.viol("dims", tag.into(), format!("dims {:?} expected {:?}", v.dims(), (g.w, g.h)));
         return;
     }
+    // secondary accessors: the row pitch of a view is that of its root; contiguity as documented
+    if v.stride() as usize != g.stride { cx.viol("stride", tag.into(), format!("stride() = {} but the root's row pitch is {}", v.stride(), g.stride)); }
+    if v.is_contiguous() != (g.stride == g.w as usize || g.h <= 1 || g.w == 0) { cx.viol("is_contiguous", tag.into(), format!("is_contiguous() = {} for {}x{} with stride {}", v.is_contiguous(), g.w, g.h, g.stride)); }
     if v.is_empty() != (g.w == 0 || g.h == 0) {
         cx.viol("is_empty", tag.into(), format!("is_empty={} for {}x{}", v.is_empty(), g.w, g.h));
     }
@@ -327,7 +330,8 @@ fn recipes(g0: Geo, all_forms_first: bool, oob: bool) -> Vec<(Vec<Step>, Option<
     };
     for (l, t, r, b) in rects(g0, oob) {
         let g1 = slice_geo(g0, l, t, r, b);
-        let forms = if g1.is_some() && all_forms_first { forms_for(l, t, r, b, g0.w, g0.h) } else { vec![Form::Ranges] };
+        // (rectangles that must be rejected - inverted or out of bounds - are also spelled in every form that can express them)
+        let forms = if all_forms_first { if g1.is_some() { forms_for(l, t, r, b, g0.w, g0.h) } else { vec![Form::Ranges, Form::VecRange, Form::RectLit] } } else { vec![Form::Ranges] };
         for form in forms {
             let s1 = Step::Slice { l, t, r, b, form };
             out.push((vec![s1], g1));
@@ -627,7 +631,7 @@ fn main() {
         init.push(State { root, contents: (1..=(w * h) as i32).collect() });
     }}
     // scale sentinels: a few large roots (extents beyond 255 and 65535), expanded once with edge/middle recipes
-    let large: Vec<(u32, u32)> = if quick { vec![(300, 3), (2, 258), (65537, 1)] } else { vec![(300, 3), (3, 300), (257, 2), (2, 258), (65537, 1), (1, 65537), (70, 70)] };
+    let large: Vec<(u32, u32)> = if quick { vec![(300, 3), (2, 258), (65537, 1), (17, 5), (33, 31), (64, 9), (9, 128)] } else { vec![(300, 3), (3, 300), (257, 2), (2, 258), (65537, 1), (1, 65537), (70, 70), (17, 5), (33, 31), (64, 9), (9, 128), (100, 100), (127, 129)] };
     for &(w, h) in &large { init.push(State { root: Root::Buf { w, h }, contents: (1..=(w * h) as i32).collect() }); }
     let mut rep = Report::new();
     for (root, can_hold) in direct_roots(if quick { 2 } else { 3 }) {
